@@ -196,6 +196,10 @@ def main(run):
     from .. import pathclosure, pathmut
     c10.handle_paths(run, P, 'C04')
     ok, ncalls = pathmut.make_root_guarded(P)
+    pr_ = pathmut.new_wiring(P)
+    if pr_ is not None:
+        nb_ = P.body(pathmut.PRE + 'new')
+        run.violation('handle|follows_authority', f'{P.where(nb_) if nb_ else "path_mut.rs"} PathMutImpl::new: {pr_} — the handle analysis (needs_root, shields) assumes that flag')
     if not ok:
         run.violation('make_root|guard', 'PathMutImpl::make_root is called without the needs_root() guard under which it is verified')
     pst = pathclosure.check(run, None, P, ctx, ['uri::Uri', 'uri::reference::UriRef', 'iri::Iri', 'iri::reference::IriRef'], ['uri::path::Path', 'iri::path::Path'])
